@@ -492,9 +492,19 @@ impl<I: Interner> RenderAsRust<I> for FnDefDatum<I> {
         let s = &s.add_debrujin_index(None);
         let bound_datum = self.binders.skip_binders();
 
+        // variance
+        write_variances(
+            f,
+            s.db().interner(),
+            &s.db().unification_database().fn_def_variance(self.id),
+        )?;
+
         // declaration
-        // fn foo<T>(arg: u32, arg2: T) -> Result<T> where T: Bar
-        // ^^^^^^
+        // unsafe fn foo<T>(arg: u32, arg2: T) -> Result<T> where T: Bar
+        // ^^^^^^^^^^^^^
+        if self.sig.safety == chalk_ir::Safety::Unsafe {
+            write!(f, "unsafe ")?;
+        }
         write!(f, "fn {}", s.db().fn_def_name(self.id))?;
 
         // binders
@@ -515,6 +525,14 @@ impl<I: Interner> RenderAsRust<I> for FnDefDatum<I> {
                 .iter()
                 .enumerate()
                 .map(|(idx, arg)| format!("arg_{}: {}", idx, arg.display(s)))
+                .chain(if self.sig.variadic {
+                    Some(format!(
+                        "arg_{}: ...",
+                        inputs_and_output.argument_types.len()
+                    ))
+                } else {
+                    None
+                })
                 .format(", ");
 
             write!(f, "({})", arguments)?;
